@@ -121,6 +121,14 @@ def correspondence(ctx):
                 vs = list(loc.all_variants(cs))
                 c.add("space.all %s | %d %d | %s" % (head, a, b, cs), " ".join(vs), nontrivial=len(vs) > 2,
                       branch="all:%s" % ("big" if len(vs) > 16 else "small"))
+                # the same space OBJECT asked again from another sequence of the space (operation history)
+                vs2 = list(loc.all_variants(r))
+                c.add("space.all %s | %d %d | %s" % (head, a, b, r), " ".join(vs2), nontrivial=len(vs2) > 2,
+                      branch="all:second-call-same-object")
+                with Recorder() as rec:
+                    r2 = loc.apply_random_mutations(nm, r)
+                c.add("space.apply %s | %d %d | %d | %s | %s" % (head, a, b, nm, r, " ".join(map(str, rec.tape))),
+                      "%s used %d" % (r2, len(rec.tape)), branch="apply:second-call-same-object")
     # MutationChoice primitives directly
     from dnachisel.MutationSpace import MutationChoice
     for _ in range(ctx.n(600)):
@@ -210,24 +218,25 @@ def oracle_problem(rng, seq, descs, out):
         out.append(dict(kind="constrain", input=dict(inp, start=s2), detail="%s -> %s -> %s draws=%s" % (s2, cs, cs2, rec.tape)))
     n_checks += 1
     # all_variants
-    if loc.multichoices and product(loc) <= 3000:
-        vs = list(loc.all_variants(cs))
+    def check_all(cur, kind):
+        vs = list(loc.all_variants(cur))
         span = loc.choices_span
-        ok = len(vs) == product(loc) and len(set(vs)) == len(vs) and vs[0] == cs
+        ok = len(vs) == product(loc) and len(set(vs)) == len(vs) and vs[0] == cur
         for v in vs:
-            if not in_space(space, v) or v[:span[0]] != cs[:span[0]] or v[span[1]:] != cs[span[1]:]:
+            if not in_space(space, v) or v[:span[0]] != cur[:span[0]] or v[span[1]:] != cur[span[1]:]:
                 ok = False
         # every combination
-        combos = 1
         import itertools
         want_set = set()
         for combo in itertools.product(*[[(ch.start, ch.end, str(v)) for v in ch.variants] for ch in loc.multichoices]):
-            t = list(cs)
+            t = list(cur)
             for s_, e_, v in combo:
                 t[s_:e_] = v
             want_set.add("".join(t))
         if not ok or set(vs) != want_set:
-            out.append(dict(kind="all-variants", input=dict(inp, location=[a, b], current=cs), detail=str(vs[:6])))
+            out.append(dict(kind=kind, input=dict(inp, location=[a, b], current=cur), detail=str(vs[:6])))
+    if loc.multichoices and product(loc) <= 3000:
+        check_all(cs, "all-variants")
         n_checks += 1
     # apply n mutations
     if not loc.multichoices:
@@ -249,6 +258,15 @@ def oracle_problem(rng, seq, descs, out):
         if not ok or not outside:
             out.append(dict(kind="apply-mutations", input=dict(inp, location=[a, b], current=cs, n=nm), detail=r))
         n_checks += 1
+        # operation history on the same space object: enumerate again from the mutated sequence, mutate again
+        if ok and outside and product(loc) <= 3000:
+            check_all(r, "all-variants:second-call-same-object")
+            r2 = loc.apply_random_mutations(nm, r)
+            changed2 = [ch for ch in loc.multichoices if r2[ch.start:ch.end] != r[ch.start:ch.end]]
+            if len(changed2) != min(nm, len(loc.multichoices)) or not in_space(space, r2):
+                out.append(dict(kind="apply-mutations:second-call-same-object",
+                                input=dict(inp, location=[a, b], current=r, n=nm), detail=r2))
+            n_checks += 2
     return n_checks
 
 
